@@ -235,6 +235,47 @@ def trace_stats(tr, history):
             "conns": len([1 for st in tr.steps if st.op["op"] == "connect"])}
 
 
+TRACED_FILES = ("server.py", "server_websocket.py", "server_tap.py")
+
+
+def _executable_lines(path):
+    """line numbers that carry code, from the compiled code objects"""
+    try:
+        code = compile(open(path).read(), path, "exec")
+    except Exception:
+        return set()
+    lines, todo = set(), [code]
+    while todo:
+        c = todo.pop()
+        if c.co_flags & 0x0001:      # function bodies only (module and class bodies run at import)
+            for _, _, ln in c.co_lines():
+                if ln is not None and ln != c.co_firstlineno:
+                    lines.add(ln)
+        todo.extend(k for k in c.co_consts if hasattr(k, "co_lines"))
+    return lines
+
+
+def _trace_lines(fn):
+    """run fn() recording which lines of the modelled source files execute"""
+    hit = set()
+    base = os.path.join(REPO, "src", "wormhole_mailbox_server")
+    names = {os.path.join(base, f): f for f in TRACED_FILES}
+
+    def tracer(frame, event, arg):
+        f = names.get(frame.f_code.co_filename)
+        if f is None:
+            return None
+        if event == "line" or event == "call":
+            hit.add((f, frame.f_lineno))
+        return tracer
+    sys.settrace(tracer)
+    try:
+        res = fn()
+    finally:
+        sys.settrace(None)
+    return res, hit
+
+
 def _worker(args):
     pid, seed, profile_name, profile, idx = args
     import gen
@@ -248,7 +289,11 @@ def _worker(args):
         else:
             gp = {k: v for k, v in profile.items() if not k.startswith("_")}
             history = gen.generate(seed, **gp)
-        r = run_history(pid, history, meta)
+        if idx < 6 and not profile.get("_special"):
+            r, hit = _trace_lines(lambda: run_history(pid, history, meta))
+            r["lines"] = sorted(hit)
+        else:
+            r = run_history(pid, history, meta)
         r["seed"] = seed
         r["profile"] = profile_name
         r["history"] = history if (r["findings"] or r["diff"]) else None
@@ -426,6 +471,15 @@ def main():
             log("harness errors:", errors[0]["error"], errors[0].get("tb"))
             print("ERROR: harness failure on %d histories: %s" % (len(errors), errors[0]["error"]))
             sys.exit(2)
+        lines_hit = set()
+        for r in results:
+            lines_hit.update(tuple(x) for x in r.get("lines", []))
+        code_cov = {}
+        for f in TRACED_FILES:
+            ex = _executable_lines(os.path.join(REPO, "src", "wormhole_mailbox_server", f))
+            got = {ln for (ff, ln) in lines_hit if ff == f}
+            code_cov[f] = {"executable_lines": len(ex), "executed": len(ex & got), "never_executed": sorted(ex - got)[:80]}
+        cov["code_lines_of_the_implementation_executed"] = {"note": "measured with sys.settrace on the first 6 histories of every profile of this run", "files": code_cov}
         shapes, ops, errs, trig = set(), {}, {}, {}
         nontrivial = set()
         samples = []
@@ -481,6 +535,28 @@ def main():
                     "correspondence_mismatches": ndiff, "ops_run": sum(ops.values()), "operation_histogram": ops,
                     "error_histogram": errs, "trigger_histogram": trig, "known_finding_hits": known_counts,
                     "profiles": [(n, c) for n, _, c in profs]})
+
+    if pid == "C10" and eng is None:
+        # validate the crash simulation against real process death on a sample
+        import gen, realkill
+        nk = 8 if tier == "quick" else 80
+        hs = []
+        i = 0
+        while len(hs) < nk and i < 10 * nk:
+            h = gen.generate(seed * 1000003 + i, w_crash=6, n_ops=40, usage=(i % 2 == 0))
+            i += 1
+            idx = [j for j, o in enumerate(h) if o["op"] == "crash"]
+            if idx:
+                hs.append(h[:idx[0] + 2])
+        with Pool(min(16, len(hs))) as pool:
+            rk = pool.map(realkill.validate, hs)
+        badk = [(h, r) for h, r in zip(hs, rk) if r]
+        cov["real_kill_validations"] = len(hs)
+        cov["real_kill_mismatches"] = len(badk)
+        if badk:
+            path = write_replay(pid, "realkill", {"history": badk[0][0], "difference": badk[0][1]})
+            print("ERROR: the crash simulation disagrees with a real kill (see %s)" % path)
+            sys.exit(2)
 
     if proof_broken is not None and not violations:
         path = write_replay(pid, "proof", proof_broken)
